@@ -79,3 +79,134 @@ Theorem set_of_den : forall en w a b r lhs rhs result, width_ok w ->
                         den en e = Ok (mkc 1 (of_value w a b r sub)).
 Proof. exact X86Proofs.set_of_den. Qed.
 Print Assumptions set_of_den.
+
+(* 3. one instruction form end to end: mov between (sub-)registers of equal size, both modes, all register
+      contents (incl. mov ah, al / dst = src).  [X86Mirror.lift_mov] is tied syntactically to the real
+      lifter's output for these encodings on every run (Isa/C01Check.v, fst of ck). *)
+Theorem lift_mov_reg_reg_correct : forall m sz dst src en nd ns sd ss xd xs,
+  operand_shape m sz dst = Some (nd, sd) -> operand_shape m sz src = Some (ns, ss) ->
+  0 <= xd < 2 ^ wordsz m -> 0 <= xs < 2 ^ wordsz m ->
+  env_get en (nd, None) = Some (mkc (wordsz m) xd) -> env_get en (ns, None) = Some (mkc (wordsz m) xs) ->
+  exists e,
+    X86Mirror.lift_mov m sz dst src = Ok [OAssign (mks nd (wordsz m) None) e] /\
+    exec_op (mkst en (mkbmem false [])) (OAssign (mks nd (wordsz m) None) e) =
+      Ok (mkst (env_set en (nd, None) (mkc (wordsz m) (arch_write sd (wordsz m) xd (arch_read ss (wordsz m) xs)))) (mkbmem false []),
+          EvAssign (nd, None) (mkc (wordsz m) (arch_write sd (wordsz m) xd (arch_read ss (wordsz m) xs)))).
+Proof. exact X86Proofs.lift_mov_reg_reg_correct. Qed.
+Print Assumptions lift_mov_reg_reg_correct.
+
+(* 4. add with a register destination (any sub-register kind, both modes) and a register/immediate source:
+      the seven operations the builder emits (temporary, ZF, SF, OF, CF, destination write), executed in
+      sequence by Sem.exec_op from ANY state, leave the architectural result and flags of X86.alu AAdd.
+      The operation list is the one of [X86Mirror.lift_alu AAdd], tied syntactically to the lifter every run. *)
+Theorem add_reg_ops_correct : forall st m sz dst nd sd xd lhs rhs b,
+  operand_shape m sz dst = Some (nd, sd) -> reg_name_ok nd = true -> width_ok sz ->
+  0 <= xd < 2 ^ wordsz m -> env_get (st_env st) (nd, None) = Some (mkc (wordsz m) xd) ->
+  X86Mirror.opv m sz dst = Ok lhs ->
+  e_bits rhs = sz -> 0 <= b < 2 ^ sz -> den (st_env st) rhs = Ok (mkc sz b) -> clean rhs = true ->
+  let a := arch_read sd (wordsz m) xd in
+  let r := U sz (a + b) in
+  exists ops st',
+    X86Mirror.lift_alu m AAdd sz dst (OImm 0) <> None /\
+    (e <- mk_bin Add lhs rhs ;; zf <- set_zf (EScalar (X86Mirror.temp_k 0 sz)) ;; sf <- set_sf (EScalar (X86Mirror.temp_k 0 sz)) ;;
+     of <- set_of (EScalar (X86Mirror.temp_k 0 sz)) lhs rhs false ;; c <- mk_bin Cmpltu (EScalar (X86Mirror.temp_k 0 sz)) lhs ;;
+     s <- X86Mirror.ops_store m sz dst (EScalar (X86Mirror.temp_k 0 sz)) ;;
+     Ok ([OAssign (X86Mirror.temp_k 0 sz) e; zf; sf; of; X86Mirror.assign_flag X86Lift.n_CF c] ++ s)) = Ok ops /\
+    exec_ops st ops = Ok st' /\
+    st_mem st' = st_mem st /\
+    env_get (st_env st') (nd, None) = Some (mkc (wordsz m) (arch_write sd (wordsz m) xd r)) /\
+    env_get (st_env st') kZF = Some (mkc 1 (X86.b2z (r =? 0))) /\
+    env_get (st_env st') kSF = Some (mkc 1 (X86.b2z (X86.msb sz r))) /\
+    env_get (st_env st') kOF = Some (mkc 1 (X86.b2z (X86.sovf sz (X86.Sg sz a + X86.Sg sz b)))) /\
+    env_get (st_env st') kCF = Some (mkc 1 (X86.b2z (2 ^ sz <=? a + b))).
+Proof. exact X86Proofs.add_reg_ops_correct. Qed.
+Print Assumptions add_reg_ops_correct.
+
+(* 5. the same for sub, cmp and the logic group and/or/xor (register destination, register/immediate source) *)
+Theorem sub_reg_ops_correct : forall st m sz dst nd sd xd lhs rhs b,
+  operand_shape m sz dst = Some (nd, sd) -> reg_name_ok nd = true -> width_ok sz ->
+  0 <= xd < 2 ^ wordsz m -> env_get (st_env st) (nd, None) = Some (mkc (wordsz m) xd) ->
+  X86Mirror.opv m sz dst = Ok lhs ->
+  e_bits rhs = sz -> 0 <= b < 2 ^ sz -> den (st_env st) rhs = Ok (mkc sz b) -> clean rhs = true ->
+  let a := arch_read sd (wordsz m) xd in
+  let r := U sz (a - b) in
+  exists ops st',
+    X86Mirror.lift_alu m ASub sz dst (OImm 0) <> None /\
+    (e <- mk_bin Sub lhs rhs ;; zf <- set_zf (EScalar (X86Mirror.temp_k 0 sz)) ;; sf <- set_sf (EScalar (X86Mirror.temp_k 0 sz)) ;;
+     of <- set_of (EScalar (X86Mirror.temp_k 0 sz)) lhs rhs true ;; c <- set_cf (EScalar (X86Mirror.temp_k 0 sz)) lhs ;;
+     s <- X86Mirror.ops_store m sz dst (EScalar (X86Mirror.temp_k 0 sz)) ;;
+     Ok ([OAssign (X86Mirror.temp_k 0 sz) e; zf; sf; of; c] ++ s)) = Ok ops /\
+    exec_ops st ops = Ok st' /\
+    st_mem st' = st_mem st /\
+    env_get (st_env st') (nd, None) = Some (mkc (wordsz m) (arch_write sd (wordsz m) xd r)) /\
+    env_get (st_env st') kZF = Some (mkc 1 (X86.b2z (r =? 0))) /\
+    env_get (st_env st') kSF = Some (mkc 1 (X86.b2z (X86.msb sz r))) /\
+    env_get (st_env st') kOF = Some (mkc 1 (X86.b2z (X86.sovf sz (X86.Sg sz a - X86.Sg sz b)))) /\
+    env_get (st_env st') kCF = Some (mkc 1 (X86.b2z (a <? b))).
+Proof. exact X86Proofs.sub_reg_ops_correct. Qed.
+Print Assumptions sub_reg_ops_correct.
+Theorem cmp_reg_ops_correct : forall st m sz dst nd sd xd lhs rhs b,
+  operand_shape m sz dst = Some (nd, sd) -> reg_name_ok nd = true -> width_ok sz ->
+  0 <= xd < 2 ^ wordsz m -> env_get (st_env st) (nd, None) = Some (mkc (wordsz m) xd) ->
+  X86Mirror.opv m sz dst = Ok lhs ->
+  e_bits rhs = sz -> 0 <= b < 2 ^ sz -> den (st_env st) rhs = Ok (mkc sz b) -> clean rhs = true ->
+  let a := arch_read sd (wordsz m) xd in
+  let r := U sz (a - b) in
+  exists ops st',
+    X86Mirror.lift_alu m ACmp sz dst (OImm 0) <> None /\
+    (e <- mk_bin Sub lhs rhs ;; zf <- set_zf e ;; sf <- set_sf e ;; of <- set_of e lhs rhs true ;; cf <- set_cf e lhs ;;
+     Ok [zf; sf; of; cf]) = Ok ops /\
+    exec_ops st ops = Ok st' /\
+    st_mem st' = st_mem st /\
+    env_get (st_env st') (nd, None) = Some (mkc (wordsz m) xd) /\
+    env_get (st_env st') kZF = Some (mkc 1 (X86.b2z (r =? 0))) /\
+    env_get (st_env st') kSF = Some (mkc 1 (X86.b2z (X86.msb sz r))) /\
+    env_get (st_env st') kOF = Some (mkc 1 (X86.b2z (X86.sovf sz (X86.Sg sz a - X86.Sg sz b)))) /\
+    env_get (st_env st') kCF = Some (mkc 1 (X86.b2z (a <? b))).
+Proof. exact X86Proofs.cmp_reg_ops_correct. Qed.
+Print Assumptions cmp_reg_ops_correct.
+Theorem logic_reg_ops_correct : forall st m op f sz dst nd sd xd lhs rhs b,
+  logic_fun op = Some f ->
+  operand_shape m sz dst = Some (nd, sd) -> reg_name_ok nd = true -> width_ok sz ->
+  0 <= xd < 2 ^ wordsz m -> env_get (st_env st) (nd, None) = Some (mkc (wordsz m) xd) ->
+  X86Mirror.opv m sz dst = Ok lhs ->
+  e_bits rhs = sz -> 0 <= b < 2 ^ sz -> den (st_env st) rhs = Ok (mkc sz b) -> clean rhs = true ->
+  let a := arch_read sd (wordsz m) xd in
+  let r := f a b in
+  exists ops st',
+    (e <- mk_bin op lhs rhs ;; zf <- set_zf (EScalar (X86Mirror.temp_k 0 sz)) ;; sf <- set_sf (EScalar (X86Mirror.temp_k 0 sz)) ;;
+     s <- X86Mirror.ops_store m sz dst (EScalar (X86Mirror.temp_k 0 sz)) ;;
+     Ok ([OAssign (X86Mirror.temp_k 0 sz) e; zf; sf; X86Mirror.assign_flag X86Lift.n_CF (expr_const 0 1); X86Mirror.assign_flag X86Lift.n_OF (expr_const 0 1)] ++ s)) = Ok ops /\
+    exec_ops st ops = Ok st' /\
+    st_mem st' = st_mem st /\
+    env_get (st_env st') (nd, None) = Some (mkc (wordsz m) (arch_write sd (wordsz m) xd r)) /\
+    env_get (st_env st') kZF = Some (mkc 1 (X86.b2z (r =? 0))) /\
+    env_get (st_env st') kSF = Some (mkc 1 (X86.b2z (X86.msb sz r))) /\
+    env_get (st_env st') kOF = Some (mkc 1 0) /\
+    env_get (st_env st') kCF = Some (mkc 1 0).
+Proof. exact X86Proofs.logic_reg_ops_correct. Qed.
+Print Assumptions logic_reg_ops_correct.
+
+(* 6. inc / dec with a register destination *)
+Theorem incdec_reg_ops_correct : forall st m (sub : bool) sz dst nd sd xd lhs,
+  operand_shape m sz dst = Some (nd, sd) -> reg_name_ok nd = true -> width_ok sz ->
+  0 <= xd < 2 ^ wordsz m -> env_get (st_env st) (nd, None) = Some (mkc (wordsz m) xd) ->
+  X86Mirror.opv m sz dst = Ok lhs ->
+  let a := arch_read sd (wordsz m) xd in
+  let r := if sub then U sz (a - 1) else U sz (a + 1) in
+  let op := if sub then Sub else Add in
+  exists ops st',
+    X86Mirror.lift_un m (if sub then UDec else UInc) sz dst <> None /\
+    (e <- mk_bin op lhs (expr_const 1 (e_bits lhs)) ;;
+     zf <- set_zf e ;; sf <- set_sf e ;; of <- set_of e lhs (expr_const 1 (e_bits lhs)) sub ;;
+     s <- X86Mirror.ops_store m sz dst e ;; Ok ([zf; sf; of] ++ s)) = Ok ops /\
+    exec_ops st ops = Ok st' /\
+    st_mem st' = st_mem st /\
+    env_get (st_env st') (nd, None) = Some (mkc (wordsz m) (arch_write sd (wordsz m) xd r)) /\
+    env_get (st_env st') kZF = Some (mkc 1 (X86.b2z (r =? 0))) /\
+    env_get (st_env st') kSF = Some (mkc 1 (X86.b2z (X86.msb sz r))) /\
+    env_get (st_env st') kOF =
+      Some (mkc 1 (X86.b2z (X86.sovf sz (if sub then X86.Sg sz a - X86.Sg sz 1 else X86.Sg sz a + X86.Sg sz 1)))) /\
+    env_get (st_env st') kCF = env_get (st_env st) kCF.
+Proof. exact X86Proofs.incdec_reg_ops_correct. Qed.
+Print Assumptions incdec_reg_ops_correct.
